@@ -93,7 +93,10 @@ def run_shard(ctx):
     q = ctx.quick()
     ctx.run_given(gen.streams(L, max_pairs=4 if q else 8, big=not q), lambda c: check_case(ctx, L, c), ctx.share(2500 if q else 30000), name="streams")
     if ctx.shard < (4 if q else 16):
-        ctx.run_given(gen.long_streams(L), lambda c: check_case(ctx, L, c), 1 if q else 3, name="long-stream")
+        collected = []  # judged outside hypothesis, which raises the recursion limit while a test runs
+        ctx.run_given(gen.long_streams(L), collected.append, 1 if q else 3, name="long-stream")
+        for c in collected:
+            ctx.run_plain(lambda c=c: check_case(ctx, L, c), "long-stream")
 
 
 def finalize(merged):
